@@ -83,7 +83,7 @@ CHECKS = {
    note="Encode/decode fidelity of third-party parsers is sampled, not enumerated; NaN / infinities are outside the property."),
  "C20": dict(engine="persist", cat="fault_enumeration", design="5/C20",
    technique="Fault enumeration judged by TLC: every single mutation of one valid tagged JSON document per type (outcome must be Err, or Ok with Persist.tla's shape invariants and a usable object - never a panic), constructor argument grids against the specified outcome class, every NamedCal token string, and the calendar engine's date-arithmetic traces (i8 extremes, month offsets, roll days 1-31) validated for totality and value against Calendar.tla; MC_Persist model-checks that a validating Load maps every mutated document to Err or a well-shaped object",
-   text="The faults are the enumerated malformed inputs; TLC decides each recorded outcome. Genuine defects found: four repaired (add_days(-128), load-time panics, pivot-search panic, see known_findings.txt) and one family recorded as known findings (derived Deserialize accepts shape-violating documents).",
+   text="The faults are the enumerated malformed inputs; TLC decides each recorded outcome. Genuine defects found and repaired in /repo: add_days(-128), load-time panics, pivot-search panic, shape-violating documents accepted by derived Deserialize (see known_findings.txt).",
    note="A panic is observed through catch_unwind with an initialised interpreter; a hang is reported by a watchdog; double mutations are not enumerated."),
 }
 
